@@ -81,7 +81,7 @@ impl Ctx {
         let mut fs = Vec::new();
         for p in &paths {
             // exactly what `read_file` observes
-            if let Ok(text) = std::fs::read_to_string(p) {
+            if let Ok(text) = std::fs::read_to_string(os(p)) {
                 fs.push(tagged("file", vec![st(p), st(&cid(&text))]));
                 texts.insert(cid(&text), text);
             }
@@ -356,8 +356,8 @@ impl Ctx {
             if a.kind == "crash" {
                 continue;
             }
-            let qtext = if c.entry == Entry::File { std::fs::read_to_string(&c.query).ok() } else { Some(c.query.clone()) };
-            let stext = std::fs::read_to_string(&c.schema).ok();
+            let qtext = if c.entry == Entry::File { std::fs::read_to_string(os(&c.query)).ok() } else { Some(c.query.clone()) };
+            let stext = std::fs::read_to_string(os(&c.schema)).ok();
             if let (Some(q), Some(s)) = (qtext, stext) {
                 let fmt = match std::path::Path::new(&c.schema).extension().and_then(|e| e.to_str()) {
                     Some("json") => true,
